@@ -226,6 +226,15 @@ Theorem C13_find_occurrences_sound : forall dic occ, find_occurrences dic = Ok o
 Proof. exact find_occurrences_sound. Qed.
 Print Assumptions C13_find_occurrences_sound.
 
+(* ... and misses none: every mention made by a cell reachable from the level-0
+   cells is recorded (so the number of mentions the score divides by is the number
+   of mentions in reachable cells) *)
+Theorem C13_find_occurrences_complete : forall dic occ, find_occurrences dic = Ok occ ->
+  forall key c sub, reachable dic key -> lookup key dic = Some c ->
+    In sub (extract_subcells (cgeom c)) -> recorded occ sub key.
+Proof. exact find_occurrences_complete. Qed.
+Print Assumptions C13_find_occurrences_complete.
+
 (* inlining does what the option says: afterwards no cell mentions a cell of
    to_inline (given that no geometry is a bare CellRef, as pot_fill guarantees) *)
 Theorem C13_inline_complete : forall fuel ti dic dic',
@@ -403,6 +412,38 @@ Theorem C13_options_same_written_linked :
       corigin a = corigin b /\ cmat a = cmat b)).
 Proof. exact options_same_written_linked_input. Qed.
 Print Assumptions C13_options_same_written_linked.
+
+(* the same with the renumbering of each option vector taken from C13's own
+   de-duplication ([renumbering_of]: none under --skip-deduplication) and sigma
+   induced on the surface table by any function of the descriptors: C01's
+   "merged surfaces have equal senses" hypotheses are discharged, what remains
+   assumed about sigma is the consistency of the two helper planes *)
+Theorem C13_options_same_written_dedup_linked :
+  forall (sense : desc R -> bool) surfs fuel (o1 o2 : options) dic counter d1 c1 d2 c2
+         matching u0 u1 cfuel todo cnt0 s1 s2 skipped w1 w2 c,
+  NoDup (map fst surfs) ->
+  (forall k, lookup k dic <> None -> k <= counter) -> (exists rank, acyclic rank dic) ->
+  good_cells matching dic ->
+  cell_stage fuel o1 dic counter = Ok (d1, c1) -> cell_stage fuel o2 dic counter = Ok (d2, c2) ->
+  0 < u0 -> 0 < u1 -> C01.Spec.consistent (sense_of sense surfs) u0 u1 ->
+  NoDup todo -> (forall k, In k todo -> k <= cnt0) -> (forall k, In k todo -> lookup k d1 <> None) ->
+  C01.Model.convert_cells cfuel (embed_cells d1) matching u0 u1 todo (C01.Model.mkSt cnt0 [] [] []) = C01.Model.Ok s1 ->
+  C01.Model.convert_cells cfuel (embed_cells d2) matching u0 u1 todo (C01.Model.mkSt cnt0 [] [] []) = C01.Model.Ok s2 ->
+  C01.Model.prune u0 u1 (renumbering_of o1 surfs) (C01.Model.vols s1) = C01.Model.Ok w1 ->
+  C01.Model.prune u0 u1 (renumbering_of o2 surfs) (C01.Model.vols s2) = C01.Model.Ok w2 ->
+  (forall k, In k skipped -> k <= cnt0 /\ ~ In k todo) ->
+  lookup c d1 <> None ->
+  exists r1, acyclic r1 d1 /\
+  (cden r1 (sigmaM (sense_of sense surfs) matching) d1 c = true ->
+   (forall c', In c' todo -> cden r1 (sigmaM (sense_of sense surfs) matching) d1 c' = true -> c' = c) ->
+   (forall k, C01.ProofsCells.in_volume (sense_of sense surfs) (C01.Model.written skipped w1) k <->
+              C01.ProofsCells.in_volume (sense_of sense surfs) (C01.Model.written skipped w2) k) /\
+   (In c todo -> forall k, C01.ProofsCells.in_volume (sense_of sense surfs) (C01.Model.written skipped w1) k <-> k = c) /\
+   (~ In c todo -> forall k, ~ C01.ProofsCells.in_volume (sense_of sense surfs) (C01.Model.written skipped w1) k) /\
+   (forall a b, lookup c d1 = Some a -> lookup c d2 = Some b ->
+      corigin a = corigin b /\ cmat a = cmat b)).
+Proof. exact options_same_written_dedup_linked. Qed.
+Print Assumptions C13_options_same_written_dedup_linked.
 
 (* non-vacuity of the link: both stage-1 tables of C13_example_options run through
    C01's loop and prune (with and without a renumbering) and leave the same
